@@ -62,6 +62,11 @@ Lemma fv_EOr l : free_vars (EOr l) = fvl l. Proof. cbn [free_vars]. apply fv_fix
 Lemma fv_EPlus l : free_vars (EPlus l) = fvl l. Proof. cbn [free_vars]. apply fv_fix. Qed.
 Lemma fv_ETimes l : free_vars (ETimes l) = fvl l. Proof. cbn [free_vars]. apply fv_fix. Qed.
 
+Lemma fv_EExists vs a : free_vars (EExists vs a) = filter (fun v => negb (memN v (map fst vs))) (free_vars a).
+Proof. reflexivity. Qed.
+Lemma fv_EForall vs a : free_vars (EForall vs a) = filter (fun v => negb (memN v (map fst vs))) (free_vars a).
+Proof. reflexivity. Qed.
+
 Lemma fvl_app a b : fvl (a ++ b) = fvl a ++ fvl b.
 Proof. unfold fvl. apply flat_map_app. Qed.
 
